@@ -432,14 +432,16 @@ def eval_expr_ast(e, st):
 
 # ---- generator of guarded loops that do terminate with positive probability ---------------------
 LPROBS = [Fraction(1, 2), Fraction(1, 3), Fraction(1, 4), Fraction(2, 3), Fraction(3, 4), Fraction(1, 5)]
+# quick tier: small denominators only (sympy's limit_seq inside Polar needs minutes for bases like 19/20)
+LPROBS_QUICK = [Fraction(1, 2), Fraction(1, 3), Fraction(2, 3)]
 
 
-def loop_program(rng):
+def loop_program(rng, probs=LPROBS):
     """one stop flag g (guard g == 0 or a two-variable guard with a context flag h), the flag is
     redrawn in the body (possibly only when h == 1), accumulators get linear updates; options:
     already stopped at the start, h fixed at the start (termination with probability < 1) or
     redrawn in every iteration, whole body wrapped into a one-branch if (collapse), if/else body."""
-    pr = lambda: rng.choice(LPROBS)
+    pr = lambda: rng.choice(probs)
     feats = set()
     init = []
     start = rng.random()
@@ -516,7 +518,9 @@ def loop_program(rng):
     if r < 0.35:
         goals.append(("E", {a: 2}))
     elif r < 0.6:
-        goals.append((rng.choice(["c", "k"]), 2, {a: 1}))
+        kind = rng.choice(["c", "k"])
+        # central moments / cumulants of generated programs only in the thorough tier (Polar's limit_seq may need minutes)
+        goals.append((kind, 2, {a: 1}) if probs is LPROBS else ("E", {a: 2}))
     elif r < 0.8:
         goals.append(("E", {a: 1, "g": 1}))
     if use_h and rng.random() < 0.5:
@@ -528,9 +532,9 @@ def loop_program(rng):
 def gen_programs(ctx, n):
     out = []
     tries = 0
-    n_loop = n - n // 5
+    n_loop = n if ctx.quick else n - n // 5   # harness/gen.py programs (mostly degenerate guards, 3-valued types: slow) only in the thorough tier
     while len(out) < n_loop:
-        out.append(loop_program(ctx.rng))
+        out.append(loop_program(ctx.rng, LPROBS_QUICK if ctx.quick else LPROBS))
     while len(out) < n and tries < 20 * n + 20:
         tries += 1
         g = gen.G(ctx.rng, guard=True, max_depth=1, allow_simult=ctx.rng.random() < 0.3,
@@ -617,11 +621,11 @@ def run(ctx):
             is_shape.append(pi < n_shapes)
             unit_pi.append(pi)
     tasks = [{"kind": "afterloop", "text": P.prog_text(p), "goals": [goal_text(g) for g in goals], "nvals": N + 2,
-              "timeout": ctx.pick(120, 400)} for p, goals, _ in progs]
+              "timeout": ctx.pick(100, 400)} for p, goals, _ in progs]
     import time as _time
     phases = {"props_s": round(ctx.elapsed(), 1)}
     _t = _time.time()
-    results = lib.run_tasks(tasks, timeout=ctx.pick(120, 400))
+    results = lib.run_tasks(tasks, timeout=ctx.pick(100, 400))
     phases["polar_s"] = round(_time.time() - _t, 1)
     errs, feats = {}, {}
     live = []
